@@ -27,9 +27,9 @@ CHECKS["C04"] = ("fvh-blackbox", "model-based stateful property testing: in-proc
          "A: generated insert/re-score/remove/range sequences on the real SkipList, every op followed by the cfg-guarded structural invariant walker (all levels ordered, sub-sequence property, index/chain/length bijection) and by all public queries against an ordered model, each sequence run 4 times because tower heights are random. B: generated sorted-set command histories against the real server and an ordered (score, member) model with dumps after refused commands (refused multi-member ZADD adds nothing) and at the end.",
          "scores compared numerically; trusts the model and the hook's invariant list; finding K02 excluded while it reproduces", "3/C04")
 
-CHECKS["C07"] = ("fvh-blackbox", "model-based stateful property testing (harness-sequenced multi-connection histories) + concurrent invariant workload",
-         "A: generated multi-connection histories (MULTI, queued commands of every family incl. run-time failures, interleaved commands of other connections, EXEC/DISCARD/disconnect, stray EXEC/DISCARD, nested MULTI) sequenced by the harness and compared with the model: +QUEUED and no effect while queueing (observer dump), EXEC slots = model replies back to back, errors in their slot, state cleared. B: bursts of 6 writers running transfer transactions in three send modes and 6 readers taking single-command and read-only-transaction snapshots under schedule-independent invariants (sum conservation, even log length, final state).",
-         "isolation is sampled under real OS schedules, not enumerated; queue-time EXECABORT is not assumed; finding K02 excluded while it reproduces", "3/C07")
+CHECKS["C07"] = ("fvh-blackbox", "model-based stateful property testing (harness-sequenced multi-connection histories) + concurrent invariant workload + blocked-client-vs-EXEC scenarios",
+         "C (c07c): a client blocked in BLPOP/BRPOP while another connection's transaction pushes to its list (LPUSH/RPUSH/EVAL/EVALSHA) and reads it back: EXEC reply = queued commands back to back, blocked client served only afterwards. A: generated multi-connection histories (MULTI, queued commands of every family incl. run-time failures, interleaved commands of other connections, EXEC/DISCARD/disconnect, stray EXEC/DISCARD, nested MULTI) sequenced by the harness and compared with the model: +QUEUED and no effect while queueing (observer dump), EXEC slots = model replies back to back, errors in their slot, state cleared. B: bursts of 6 writers running transfer transactions in three send modes and 6 readers taking single-command and read-only-transaction snapshots under schedule-independent invariants (sum conservation, even log length, final state).",
+         "isolation is sampled under real OS schedules, not enumerated; queue-time EXECABORT is not assumed; finding K02 excluded while it reproduces", "3/C07 and 9")
 CHECKS["C08"] = ("fvh-blackbox", "enumerated grid (write command x key state x path) + model-based random histories",
          "every tier runs the full grid of ~70 commands x 8 watched-key states x 4 paths (other connection, same connection, other connection's EXEC, script) plus served blocking pops, deadline expiry before/after a sweeper pass, UNWATCH/DISCARD/EXEC forgetting, and other databases; random WATCH histories on top. The model decides must-abort (state of a watched key changed) and must-execute (no write addressed a watched key); no-op writes are not asserted.",
          "script-path commands are applied to the model leniently (their replies are C12's business) and end dataset comparison for that case", "3/C08")
@@ -41,7 +41,7 @@ CHECKS["C02"] = ("fvh-blackbox", "model-based real-time property testing (three-
          "A: generated real-time histories against the real server with its real once-per-second sweeper; each request is bracketed by monotonic clock readings, so for every command the model knows whether a key's deadline has definitely passed, definitely not, or lies inside the window (then nothing is asserted and the case ends). Reads through every command family, create-or-update writes, TTL clearing/moving/extending, TTL/PTTL values within the clock interval, and dumps after two sweeper periods (no spurious deletion). B: in-process, the cfg(ferrous_verif) gate parks the sweeper between its scan and its deletions while the harness re-creates / overwrites / renames onto / persists the collected keys; all (type x operation) pairs are enumerated in every run.",
          "harness and server share CLOCK_MONOTONIC; a defect visible only inside the sub-millisecond ambiguity window is invisible; B trusts the gate placement (between collect and delete)", "3/C02")
 CHECKS["C05"] = ("fvh-blackbox", "generated pipelines with marker framing, segmentation differential, protocol-violation grammar",
-         "generated pipelines of valid, impossible (unknown / arity / wrong type / bad argument / missing key) and transactional items with hostile argument bytes, each item followed by ECHO of a unique marker, sent under generated segmentations (whole, byte by byte, cuts, per command, inside every header/CRLF); an independent RESP decoder must find exactly the expected frames with markers in place, errors for impossible commands, a usable connection afterwards, and byte-identical replies for the one-write send. 18 kinds of protocol-violating frames must draw an error reply.",
+         "generated pipelines of valid, impossible (unknown / arity / wrong type / bad argument / missing key) and transactional items with hostile argument bytes, deep pipelines of 300-5000 short commands, replies larger than the socket buffer read by a slow reader, each item followed by ECHO of a unique marker, sent under generated segmentations (whole, byte by byte, cuts, per command, inside every header/CRLF); an independent RESP decoder must find exactly the expected frames with markers in place, errors for impossible commands, a usable connection afterwards, and byte-identical replies for the one-write send. 18 kinds of protocol-violating frames must draw an error reply.",
          "kernel-level TCP coalescing is not controlled (only what is written when); pub/sub and blocking commands are outside this generator; silence verdicts need 1.5 s without bytes plus a responsive control connection", "3/C05")
 
 CHECKS["C06"] = ("fvh-blackbox", "boundary-value enumeration over the socket (bisected to single requests) + grammar-aware hostile stream generation",
@@ -49,15 +49,15 @@ CHECKS["C06"] = ("fvh-blackbox", "boundary-value enumeration over the socket (bi
          "counts with magnitude in (2^20, 2^40) are not generated; process-stopping commands (SHUTDOWN, SLEEP, DEBUG, CLIENT PAUSE, ...) excluded; resource exhaustion needing GBs of legitimate data is out of reach; finding K06 tolerated for exactly one script", "3/C06")
 
 CHECKS["C17"] = ("fvh-blackbox", "enumeration of command forms x connection contexts + generated AUTH histories, control-connection side-effect oracle",
-         "server with a generated password and a pre-loaded dataset; every dispatched command name (from the source) in 8 spellings/arities plus ~70 attack forms, each on a fresh unauthenticated connection in four contexts: exactly one error frame and no other byte, process alive, dataset dump / subscriber counts / replica table unchanged as seen by an authenticated control connection, nothing pushed to the intruder while the control connection writes; generated wrong-password histories must be refused and the exact password authenticates that connection only.",
-         "quick tier covers every form in two of the four contexts (all four for the attack forms); thorough is exhaustive over forms x contexts", "3/C17")
+         "server with a generated password and a pre-loaded dataset; every dispatched command name (from the source) in 8 spellings/arities plus ~70 attack forms, each on a fresh unauthenticated connection in seven contexts (incl. the same write as a failing or malformed AUTH); the password is set on the command line or by a requirepass line in a configuration file merged by the server's own code; intruders streaming writes while an administrator CLIENT KILLs them: exactly one error frame and no other byte, process alive, dataset dump / subscriber counts / replica table unchanged as seen by an authenticated control connection, nothing pushed to the intruder while the control connection writes; generated wrong-password histories must be refused and the exact password authenticates that connection only.",
+         "quick tier covers every form in a rotating subset of the seven contexts (all of them for the attack forms); thorough is exhaustive over forms x contexts", "3/C17")
 
 CHECKS["C09"] = ("fvh-blackbox", "generated-dataset round trip through a real restart (and through the library), canonical dump differential with clock-bracketed TTL intervals",
          "generated datasets (six types, sizes at the 6/14/32-bit length-encoding boundaries, binary and marker-equal strings, float-edge scores, u64-edge stream IDs, 16 databases, TTLs shorter and longer than the downtime) are loaded into a real server, dumped, SAVEd, the process is killed -9, kept down for a generated time and restarted on the same directory; the second dump must equal the first, PTTLs must lie in the interval the harness clock allows, keys whose deadline provably passed must be absent. The same datasets go through RdbEngine::save/load in-process at 10x the volume.",
          "sizes up to 70000 elements / bytes (2^20 and the >= 4 GiB path are out of reach); findings K07/K08 excluded while they reproduce", "3/C09")
 
 CHECKS["C10"] = ("fvh-inproc", "exhaustive fault injection over the write calls of a save + harness-owned save/writer races through sync-point hooks + prefix/substitution enumeration of damaged dumps",
-         "in-process with cfg(ferrous_verif) hooks. A: for generated datasets every write call of a save (all n while a save makes <= 3000 writes) is made to fail, as io::Error in SAVE, io::Error in BGSAVE and a panic in the BGSAVE thread; after each the previous dump must be byte-identical, the in-progress flag clear, and finally a plain save must load back to the dataset. B: the save thread is parked before a key is read, between its value and TTL reads, and inside the sorted-set encoder while generated mutations are applied; the file must load and hold a (value, TTL) state the key really had. C: every prefix and every single-byte substitution of valid dumps, plus spliced absurd length headers, under catch_unwind, watchdog and counting allocator.",
+         "in-process with cfg(ferrous_verif) hooks. A: for generated datasets every write call of a save (all n while a save makes <= 3000 writes) is made to fail, as io::Error in SAVE, io::Error in BGSAVE and a panic in the BGSAVE thread, and then every operating-system write underneath the writer's buffer including the final flush; after each the previous dump must be byte-identical, the in-progress flag clear, and finally a plain save must load back to the dataset. B: the save thread is parked before a key is read, between its value and TTL reads, and inside the sorted-set encoder while generated mutations are applied; the file must load and hold a (value, TTL) state the key really had. C: every prefix and every single-byte substitution of valid dumps, plus spliced absurd length headers, under catch_unwind, watchdog and counting allocator.",
          "fault points are write-call failures (no fsync exists to lose); race windows are the three read steps the writer has; allocation bound 1 MiB + 64 x file length", "3/C10")
 LEVEL = {"C10": "fault_enumeration"}
 CHECKS["C11"] = ("fvh-blackbox", "generated histories with an independent AOF decoder, redo differential against a second server, log-vs-execution subsequence oracle",
@@ -65,11 +65,11 @@ CHECKS["C11"] = ("fvh-blackbox", "generated histories with an independent AOF de
          "durability (fsync) is not observable and not claimed; the harness replays the log itself because the server's own start-up replay is a no-op; a step without reply is inconclusive (liveness is C06's)", "3/C11")
 
 CHECKS["C12"] = ("fvh-blackbox", "twin-server differential over generated histories (command sent directly vs. wrapped in redis.call/pcall/KEYS/EVALSHA with a rendering of what the script saw), canonical dump equality after every step, generated return-value literals, concurrent atomicity workload",
-         "twin servers fed the same generated history over the deterministic data catalogue in a generated database: direct on one, wrapped in a script on the other; the rendering of what the script saw must equal the standard RESP->Lua conversion of the direct reply, errors must raise (call) or arrive as err-tables (pcall), and the canonical dumps must be equal after every step. Fixed script checks: KEYS/ARGV bytes incl. all 256 byte values, call-aborts/pcall-continues with earlier effects kept, EVALSHA == EVAL in a non-zero database, 23 sandbox escapes with a canary directory, 25 forbidden commands. Generated nested Lua literals returned by a script vs. the standard Lua->RESP conversion. Atomicity: concurrent script transfers with invariant-checking observers.",
+         "twin servers fed the same generated history over the deterministic data catalogue in a generated database: direct on one, wrapped in a script on the other; the rendering of what the script saw must equal the standard RESP->Lua conversion of the direct reply, errors must raise (call) or arrive as err-tables (pcall), and the canonical dumps must be equal after every step. Fixed script checks: KEYS/ARGV bytes incl. all 256 byte values, call-aborts/pcall-continues with earlier effects kept, EVALSHA == EVAL in a non-zero database, 23 sandbox escapes with a canary directory, 25 forbidden commands. Lua numbers passed as arguments vs. their decimal spelling sent directly. Generated nested Lua literals returned by a script vs. the standard Lua->RESP conversion. Atomicity: concurrent script transfers with invariant-checking observers.",
          "status replies and nil replies reach scripts in a non-standard form pinned by the repository's tests (K10, K11: compared modulo exactly that); return conversions the tests pin differently (false, floats, empty table) are not generated; a script's effect on blocked clients is C13's", "3/C12")
 
 CHECKS["C13"] = ("fvh-blackbox", "model-based generated histories of sequenced multi-client blocking operations against a reference model of blocking-pop semantics, plus unsequenced concurrent bursts with a conservation oracle",
-         "generated histories of four clients over three lists (BLPOP/BRPOP on 1-3 keys with finite/infinite timeouts; pushes of 1-4 unique elements sent directly, in MULTI/EXEC, from a script; LPOP/RPOP; a pipelined push+pop batch; waits; disconnects of blocked clients), sequenced by PING round trips on a control connection so that a reference model decides every reply: FIFO service with head/tail by direction, prompt service, nil never before the timeout and always within 8 s after it, no nil for infinite waits, nothing for clients to whom nothing is due, LRANGE == pushed minus delivered after every step, wind-down residue checks. Unsequenced bursts (3 pushers, 5 blocking poppers, disconnects while blocked) checked for conservation only.",
+         "generated histories of four clients over three lists (BLPOP/BRPOP on 1-3 keys with finite/infinite timeouts; pushes of 1-4 unique elements sent directly, in MULTI/EXEC, from a script; LPOP/RPOP; a pipelined push+pop batch; pushes to two keys in one write; waits; stalls of the single-threaded server so that several deadlines meet one sweep; groups of equal-timeout waiters; disconnects of blocked clients), sequenced by PING round trips on a control connection so that a reference model decides every reply: FIFO service with head/tail by direction, prompt service, nil never before the timeout and always within 8 s after it, no nil for infinite waits, nothing for clients to whom nothing is due, LRANGE == pushed minus delivered after every step, wind-down residue checks. Unsequenced bursts (3 pushers, 5 blocking poppers, disconnects while blocked) checked for conservation only.",
          "schedules inside one event-loop iteration are sampled by the bursts only; the 8 s promptness bound is the harness's choice; the registry is observed through behaviour (later pushes stay, later calls run their full timeout), not through a hook", "3/C13")
 
 CHECKS["C14"] = ("fvh-blackbox", "model-based generated multi-client pub/sub histories against a reference model of the subscription sets (exact frames per subscriber, PUBLISH counts, acknowledgement counts)",
@@ -77,11 +77,11 @@ CHECKS["C14"] = ("fvh-blackbox", "model-based generated multi-client pub/sub his
          "order of one client's frames within a single publish, and of the acknowledgements of an unsubscribe-all, is not specified and compared as a multiset; commands other than (un)subscribe sent in subscribed mode are not generated", "3/C14")
 
 CHECKS["C19"] = ("fvh-blackbox", "generated collections and full cursor iterations interleaved with generated additions/deletions of other elements, checked against a model of the stable and ever-existing sets",
-         "one case = a collection (key space with six types, or one hash/set/sorted set) of stable plus volatile elements, one full SCAN/HSCAN/SSCAN/ZSCAN iteration with generated COUNT, MATCH, TYPE, and a generated batch of additions and deletions of volatile elements after each call. Oracle: every stable element satisfying the filters is returned; every returned element existed and satisfies MATCH (model glob) and TYPE; HSCAN values / ZSCAN scores are the element's own; the iteration terminates within n/COUNT + 12 calls after modifications stop.",
+         "one case = a collection (key space with six types, or one hash/set/sorted set) of stable plus volatile elements, one full SCAN/HSCAN/SSCAN/ZSCAN iteration with generated COUNT, MATCH, TYPE, HSCAN NOVALUES, options in either order, and a generated batch of additions and deletions of volatile elements after each call. Oracle: every stable element satisfying the filters is returned; every returned element existed and satisfies MATCH (model glob) and TYPE; HSCAN values / ZSCAN scores are the element's own; the iteration terminates within n/COUNT + 12 calls after modifications stop.",
          "elements whose value or score changes during the iteration are not generated; COUNT 0 and malformed options are not part of the property", "3/C19")
 
 CHECKS["C16"] = ("fvh-blackbox", "model-based generated consumer-group histories against a reference model (cursor, pending map, consumer set) with all observable representations of the pending set compared after every step",
-         "generated histories over two streams, two groups, four consumers (XADD, XGROUP CREATE at 0/$/ID with/without MKSTREAM, DESTROY, SETID incl. backwards, CREATECONSUMER, DELCONSUMER, XREADGROUP > with COUNT/NOACK, explicit-ID re-reads, XACK of pending/acknowledged/unknown/repeated IDs, XCLAIM with min-idle 0 / one hour, JUSTID, XDEL of non-pending entries); a model decides every reply, and after every step XPENDING summary, XPENDING ranges (overall, per consumer, sub-range with count, reversed), XINFO GROUPS and XINFO CONSUMERS must all equal the model.",
+         "generated histories over two streams, two groups, four consumers (XADD, XGROUP CREATE at 0/$/ID with/without MKSTREAM, DESTROY, SETID incl. backwards, CREATECONSUMER, DELCONSUMER, XREADGROUP > with COUNT/NOACK, explicit-ID re-reads, XACK of pending/acknowledged/unknown/repeated IDs, XCLAIM with min-idle 0 / 150 ms decided on the harness clock / one hour, JUSTID, XDEL of non-pending entries); a model decides every reply, and after every step XPENDING summary, XPENDING ranges (overall, per consumer, sub-range with count, reversed), XINFO GROUPS and XINFO CONSUMERS must all equal the model.",
          "delivery counters and idle times are not compared; pending entries are never deleted by the generator; whether a read/claim that delivers nothing creates its consumer is adopted from the first observation; the duplicated counters are observed through the commands that expose them, so no in-process hook was needed", "3/C16")
 
 checks = []
